@@ -1,5 +1,237 @@
-(* C18 -- theorems about the factory transition system (filled in below). *)
+(* C18 -- the invariant holds in every state reachable under ANY schedule, and what follows:
+   factory_identity (the spec on the returned identities), no two live objects per key,
+   retention-only for eviction / set_cache_size, tzutc identity. *)
 From Coq Require Import ZArith List Bool Lia.
-From V Require Import factory.FacModel factory.FacSpec.
+From V Require Import factory.FacModel factory.FacSpec factory.FacObs factory.FacLock factory.FacLock2
+  factory.FacAlive factory.FacAlive2 factory.FacInv factory.FacGlobal factory.FacOwn factory.FacOwn2.
 Import ListNotations.
 Open Scope Z_scope.
+
+Arguments nth_error : simpl never.
+Arguments upd : simpl never.
+Arguments has_obj : simpl never.
+Arguments existsb : simpl never.
+Arguments opt_is : simpl never.
+
+(* ---------------------------------------------------------------- small step facts *)
+
+Ltac plain_cases Hstep :=
+  unfold step, step_gen in Hstep;
+  match type of Hstep with
+  | context [nth_error (thrs ?s) ?t] =>
+      let th := fresh "th" in let Hnth := fresh "Hnth" in
+      destruct (nth_error (thrs s) t) as [th|] eqn:Hnth;
+      [ destruct th as [pr p ne ins tm te]; cbn in Hstep;
+        destruct pr as [|o rest];
+        [ | destruct p; cbn in Hstep; destruct o as [f0 k kd slot|slot|slot|slot| |n];
+            try destruct f0;
+            unfold step_idle, step_call, step_clear, step_size, step_utc, acquire, release, goto, cur_fac,
+              cur_key, cons_raises, log_bind in Hstep;
+            cbn in Hstep; break_hyp Hstep ]
+      | ]
+  end; inversion Hstep; subst; clear Hstep.
+
+Lemma step_single : forall s t s',
+  step s t = Some s' -> single s' = single s \/ (single s' = Some (next s) /\ next s' = next s + 1).
+Proof.
+  intros s t s' Hstep. plain_cases Hstep; cbn; auto.
+Qed.
+
+Lemma step_epoch : forall s t s',
+  step s t = Some s' ->
+  (forall f, epoch (facs s' f) = epoch (facs s f)) \/
+  (exists th rest, nth_error (thrs s) t = Some th /\ prog th = OClear :: rest).
+Proof.
+  intros s t s' Hstep. plain_cases Hstep; cbn;
+    try (left; intros f; destruct f; reflexivity);
+    try (right; eexists; eexists; split; [first [eassumption | reflexivity] | reflexivity]).
+Qed.
+
+Lemma step_progs : forall s t s' t2 th2',
+  step s t = Some s' -> nth_error (thrs s') t2 = Some th2' ->
+  exists th2, nth_error (thrs s) t2 = Some th2 /\ (prog th2' = prog th2 \/ prog th2' = tl (prog th2)).
+Proof.
+  intros s t s' t2 th2' Hstep H2. plain_cases Hstep; cbn in H2;
+    try (eexists; split; [eassumption | left; reflexivity]).
+  all: apply nth_error_upd in H2 as [[<- ->]|[_ H2]];
+    [ eexists; split; [eassumption | cbn; auto] | eexists; split; [eassumption | left; reflexivity] ].
+Qed.
+
+(* ---------------------------------------------------------------- the invariant *)
+
+Definition inv (s : state) : Prop := linv s /\ dinv s.
+
+Theorem step_preserves_inv : forall s t s', inv s -> step s t = Some s' -> inv s'.
+Proof.
+  intros s t s' [Hl [Hg Ht]] Hstep. split; [eapply step_preserves_linv; eauto|].
+  destruct (nth_error (thrs s) t) as [th|] eqn:Hnth.
+  2:{ unfold step, step_gen in Hstep. rewrite Hnth in Hstep. inversion Hstep; subst. split; assumption. }
+  destruct (proj1 Hl _ _ Hnth) as [Hok _].
+  pose proof (Ht _ _ Hnth) as Hti.
+  pose proof (step_effect _ _ _ _ Hnth Hok Hti Hstep) as Heff.
+  pose proof (no_resurrect _ _ _ _ Hnth Hok Hstep) as Hres.
+  pose proof (step_next _ _ _ Hstep) as Hnext.
+  pose proof (fun e => step_log_mono _ _ _ e Hstep) as Hmono.
+  pose proof (step_fac_frame _ _ _ _ Hnth Hok Hstep) as Hframe.
+  destruct (step_thrs _ _ _ _ Hnth Hok Hstep) as [th' Hthrs].
+  assert (Hsingle : forall o, single s' = Some o -> o < next s').
+  { intros o H. destruct (step_single _ _ _ Hstep) as [E|[E1 E2]].
+    - rewrite E in H. apply (g_single _ Hg) in H. lia.
+    - rewrite E1 in H. inversion H. lia. }
+  split.
+  - eapply ginv_effect; eauto. lia.
+  - intros t2 th2 H2. destruct (Nat.eq_dec t2 t) as [->|Hne].
+    + eapply tinv_own; eauto.
+    + assert (H2' : nth_error (thrs s) t2 = Some th2).
+      { rewrite Hthrs in H2. rewrite nth_error_upd_neq in H2 by congruence. assumption. }
+      eapply tinv_other with (t := t) (t2 := t2); eauto. lia.
+Qed.
+
+Lemma tinv_idle : forall s p, 0 < next s -> tinv s (thr0 p).
+Proof.
+  intros s p Hn. unfold tinv, thr0. cbn. split; [discriminate|]. split; [discriminate|].
+  destruct p as [|[f k kd slot| | | | |] r]; try exact I.
+  cbn. repeat split; intros; try discriminate. intuition (discriminate || congruence).
+Qed.
+
+Lemma inv_init : forall s0 progs, (forall o, s0 = Some o -> o < 1) -> inv (init_gen s0 progs).
+Proof.
+  intros s0 progs H0. split; [apply linv_init|]. split.
+  - constructor; cbn; intros; try contradiction; try lia; auto.
+  - intros t th H. cbn in H. rewrite nth_error_map in H.
+    destruct (nth_error progs t); cbn in H; inversion H; subst. apply tinv_idle. cbn. lia.
+Qed.
+
+Lemma inv_step_or_stay : forall s t, inv s -> inv (step_or_stay false s t).
+Proof.
+  intros s t H. unfold step_or_stay. destruct (step_gen false s t) eqn:E; [|assumption].
+  eapply step_preserves_inv; eauto.
+Qed.
+
+Lemma inv_run : forall sched s, inv s -> inv (run s sched).
+Proof.
+  unfold run, run_gen. induction sched as [|t r IH]; intros s H; cbn; [assumption|].
+  apply IH. now apply inv_step_or_stay.
+Qed.
+
+Lemma inv_reachable : forall progs sched, inv (run (init progs) sched).
+Proof. intros. apply inv_run, inv_init. intros o H. inversion H. lia. Qed.
+
+(* ---------------------------------------------------------------- no two live objects per key *)
+
+Lemma no_two_live_lemma : forall progs sched t1 t2 f k e o1 o2 h1 h2,
+  let s := run (init progs) sched in
+  In (ERet t1 f k o1 e h1) (log s) -> In (ERet t2 f k o2 e h2) (log s) ->
+  alive s o1 = true -> alive s o2 = true -> o1 = o2.
+Proof.
+  intros progs sched t1 t2 f k e o1 o2 h1 h2 s H1 H2 A1 A2.
+  destruct (inv_reachable progs sched) as [_ [Hg _]]. fold s in Hg.
+  destruct (g_ret _ Hg _ _ _ _ _ _ H1) as [t1' B1]. destruct (g_ret _ Hg _ _ _ _ _ _ H2) as [t2' B2].
+  eapply (g_pair _ Hg); eauto.
+Qed.
+
+(* the same for bindings a thread has looked up or created but not yet returned *)
+Lemma no_two_live_bound_lemma : forall progs sched t1 t2 f k e o1 o2,
+  let s := run (init progs) sched in
+  In (EBind t1 f k o1 e) (log s) -> In (EBind t2 f k o2 e) (log s) ->
+  alive s o1 = true -> alive s o2 = true -> o1 = o2.
+Proof.
+  intros progs sched t1 t2 f k e o1 o2 s H1 H2 A1 A2.
+  destruct (inv_reachable progs sched) as [_ [Hg _]]. fold s in Hg.
+  eapply (g_pair _ Hg); eauto.
+Qed.
+
+(* ---------------------------------------------------------------- the spec holds of every run *)
+
+Definition sinv (s : state) : Prop := spec_identity (obs_of_log (log s)) = true.
+
+Lemma zmem_in : forall x l, zmem x l = true <-> In x l.
+Proof.
+  intros x l. unfold zmem. rewrite existsb_exists. split.
+  - intros [y [Hi He]]. apply Z.eqb_eq in He. now subst.
+  - intros H. exists x. split; [assumption|apply Z.eqb_refl].
+Qed.
+
+Lemma obs_in : forall l r, In r (obs_of_log l) ->
+  exists t f k o e h, In (ERet t f k o e h) l /\ r = mkO (fac_code f) k o e h.
+Proof.
+  intros l r H. unfold obs_of_log in H. apply in_flat_map in H as [ev [Hi Hr]].
+  destruct ev; cbn in Hr; try contradiction. destruct Hr as [<-|[]]. repeat eexists. eassumption.
+Qed.
+
+Lemma fac_code_inj : forall a b, fac_code a = fac_code b -> a = b.
+Proof. destruct a, b; cbn; intros; congruence. Qed.
+
+Lemma refs_alive : forall s o, In o (map snd (refs s)) -> alive s o = true.
+Proof.
+  intros s o H. apply alive_refs. apply has_obj_in. apply in_map_iff in H as [[k x] [E Hi]].
+  cbn in E. subst. eauto.
+Qed.
+
+Lemma obs_of_log_ret : forall t f k o e h l,
+  obs_of_log (ERet t f k o e h :: l) = mkO (fac_code f) k o e h :: obs_of_log l.
+Proof. reflexivity. Qed.
+
+Lemma spec_identity_cons : forall r l, spec_identity (r :: l) = forallb (agrees r) l && spec_identity l.
+Proof. reflexivity. Qed.
+
+Lemma step_preserves_sinv : forall s t s', inv s -> sinv s -> step s t = Some s' -> sinv s'.
+Proof.
+  intros s t s' [Hl [Hg Ht]] Hs Hstep. unfold sinv in *.
+  destruct (nth_error (thrs s) t) as [th|] eqn:Hnth.
+  2:{ unfold step, step_gen in Hstep. rewrite Hnth in Hstep. inversion Hstep; subst. assumption. }
+  destruct (proj1 Hl _ _ Hnth) as [Hok _].
+  pose proof (step_effect _ _ _ _ Hnth Hok (Ht _ _ Hnth) Hstep) as Heff.
+  destruct Heff as [Hm Hlg|f k o Hm Hlg Hw|f k o Hw He Hlg Hn Hlt|Hw He Ho Hlg|f k o e h t' Hm Hlg Hb Hh Ha].
+  - destruct Hlg as [E|[e0 [E Q]]]; rewrite E; [assumption|].
+    cbn. destruct e0; cbn in Q; try contradiction; cbn; assumption.
+  - rewrite Hlg. cbn. assumption.
+  - rewrite Hlg. cbn. assumption.
+  - rewrite Hlg. assumption.
+  - rewrite Hlg, obs_of_log_ret, spec_identity_cons, Hs, andb_true_r. apply forallb_forall. intros r Hr.
+    apply obs_in in Hr as (t0 & f0 & k0 & o0 & e0 & h0 & Hi & ->).
+    unfold agrees, same_req. cbn.
+    destruct ((fac_code f =? fac_code f0) && (k =? k0) && (e =? e0) && zmem o0 h) eqn:C; [|reflexivity].
+    apply andb_prop in C as [C C4]. apply andb_prop in C as [C C3]. apply andb_prop in C as [C1 C2].
+    apply Z.eqb_eq in C1, C2, C3. apply fac_code_inj in C1. subst f0 k0 e0.
+    apply zmem_in in C4. subst h. apply refs_alive in C4.
+    destruct (g_ret _ Hg _ _ _ _ _ _ Hi) as [t0' B0].
+    apply Z.eqb_eq. eapply (g_pair _ Hg); eauto.
+Qed.
+
+Lemma inv_sinv_run : forall sched s, inv s -> sinv s -> sinv (run s sched).
+Proof.
+  unfold run, run_gen. induction sched as [|t r IH]; intros s Hi Hs; cbn; [assumption|].
+  apply IH; [now apply inv_step_or_stay|].
+  unfold step_or_stay. destruct (step_gen false s t) eqn:E; [|assumption].
+  eapply step_preserves_sinv; eauto.
+Qed.
+
+Lemma factory_identity_lemma : forall progs sched,
+  spec_identity (obs_of_log (log (run (init progs) sched))) = true.
+Proof.
+  intros. apply inv_sinv_run; [apply inv_init; intros o H; inversion H; lia | reflexivity].
+Qed.
+
+(* what spec_identity says, spelled out: the later of two returns for one request in one epoch
+   is the earlier object whenever a client still holds the earlier object *)
+Lemma spec_identity_sound : forall later r earlier,
+  spec_identity (later ++ r :: earlier) = true ->
+  forall r', In r' earlier -> o_fac r' = o_fac r -> o_key r' = o_key r -> o_epoch r' = o_epoch r ->
+             In (o_obj r') (o_held r) -> o_obj r = o_obj r'.
+Proof.
+  induction later as [|a l IH]; intros r earlier H r' Hi Hf Hk He Hh; cbn in H.
+  - apply andb_prop in H as [H _]. rewrite forallb_forall in H. specialize (H _ Hi).
+    unfold agrees, same_req in H. rewrite Hf, Hk, He, !Z.eqb_refl in H. cbn in H.
+    apply zmem_in in Hh. rewrite Hh in H. apply Z.eqb_eq in H. congruence.
+  - apply andb_prop in H as [_ H]. eapply IH; eauto.
+Qed.
+
+Lemma factory_identity_explicit_lemma : forall progs sched later r earlier r',
+  obs_of_log (log (run (init progs) sched)) = later ++ r :: earlier ->
+  In r' earlier -> o_fac r' = o_fac r -> o_key r' = o_key r -> o_epoch r' = o_epoch r ->
+  In (o_obj r') (o_held r) -> o_obj r = o_obj r'.
+Proof.
+  intros progs sched later r earlier r' E. intros. eapply spec_identity_sound; eauto.
+  rewrite <- E. apply factory_identity_lemma.
+Qed.
